@@ -159,6 +159,8 @@ def native_replay(flatname, vals):
 def decide(pid, specs, tier, timeout_s=None, pool=None):
     """specs: list of dict(harness=qualified, statement, functions, bounds, assumptions, [known_ok]).
     Returns list of Obl with verdicts; violations are replayed natively before being reported."""
+    if 'K' not in os.environ.get('VERIF_ENGINES', 'KLA'):
+        return []   # experimentation only (seeded-change triage): never set by the registered commands
     timeout_s = timeout_s or (900 if tier == 'quick' else 3600)
     th = tree_hash()
     obls = []
@@ -200,19 +202,19 @@ def decide(pid, specs, tier, timeout_s=None, pool=None):
                 o.failed_checks = r['failed']
                 o.status = 'violated-unreplayed'
                 o.detail = '; '.join(r['failed'])[:500]
-        # replay the failures
-        for o in todo:
+        # replay the failures (in parallel: a concrete-playback run costs as much as the verification itself)
+        def replay_one(o):
             if o.status != 'violated-unreplayed':
-                continue
+                return
             if all(('unwinding assertion' in f) for f in o.failed_checks) and o.failed_checks:
                 o.status = 'inconclusive'
                 o.detail = 'unwinding assertion failed (bound too small for this tree): ' + o.detail
-                continue
+                return
             vals, cplog = concrete_values(o.harness, timeout_s)
             if vals is None:
                 o.status = 'inconclusive'
                 o.detail = 'Kani reported a failure but no concrete values could be extracted (%s): %s' % (cplog, o.detail)
-                continue
+                return
             rp = native_replay(o.name, vals)
             path = write_replay(pid, o.name, {
                 'property': pid, 'engine': 'K', 'harness': o.harness, 'failed_checks': o.failed_checks,
@@ -224,8 +226,14 @@ def decide(pid, specs, tier, timeout_s=None, pool=None):
                 o.status = 'violated'
                 which = [k for k, v in rp.items() if v[0] == 1]
                 o.detail = 'reproduced natively on the real code (%s): %s' % (','.join(which), o.detail)
-                o.replay_output = ' | '.join(v[1].strip().splitlines()[-1] if v[1].strip() else '' for v in rp.values())
             else:
                 o.status = 'inconclusive'
                 o.detail = 'solver counterexample did NOT reproduce natively (codes %s) - encoding/stub issue: %s' % (codes, o.detail)
+        failing = [o for o in todo if o.status == 'violated-unreplayed']
+        if failing:
+            build_replay('dev')
+            build_replay('release')
+            from concurrent.futures import ThreadPoolExecutor
+            with ThreadPoolExecutor(max_workers=pool or 6) as ex:
+                list(ex.map(replay_one, failing))
     return obls
